@@ -75,9 +75,10 @@ PLANS['C12'] = dict(level='exploration',
 PLANS['C13'] = dict(level='exploration',
     runs=[R('hist', 'fast', dict(histories=500000), dict(histories=4000000), dict(ledger_requests=100000)),
           R('hist', 'asan', dict(histories=120000), dict(histories=1200000)),
+          R('fault', 'fast', dict(inputs=60000), dict(inputs=600000), dict(faulted_normalize=5000, faulted_addbase=5000)),
           R('mm', 'fast', dict(cases=20000), dict(cases=60000), dict(incomplete_manager_rejected=1000)),
           R('query', 'fast', dict(random=80000, split_len=5, huge=0), dict(random=500000, split_len=7, huge=0))],
-    rule="histories in which every object lives under one of three managers (two recording ledgers, the default allocator watched by a libc interposer); ledger checked at the end of every history, libc allocations during custom-manager calls counted; incomplete managers (each slot and pairs NULL) must be rejected before any slot is touched; query functions with a ledger; distinct = distinct produced texts / manager shapes",
+    rule="histories in which every object lives under one of three managers (two recording ledgers, the default allocator watched by a libc interposer); ledger checked at the end of every history, libc allocations during custom-manager calls counted; incomplete managers (each slot and pairs NULL) must be rejected before any slot is touched; query functions with a ledger; the allocation-failure enumerator of C14 with the interposer watching for C-library calls on the failure paths; distinct = distinct produced texts / manager shapes",
     assumptions=A_MODELS + A_MEM)
 PLANS['C14'] = dict(level='fault_enumeration',
     runs=[R('fault', 'asan', dict(inputs=60000), dict(inputs=600000), dict(faulted_parse=5000, faulted_addbase=5000, faulted_removebase=5000, faulted_normalize=5000, faulted_makeowner=5000, faulted_dissect=5000, faulted_compose=500)),
